@@ -25,9 +25,12 @@
     (d) sequential use afterwards   : `sync_then_sequential`, `sync_then_sequential_memory`
     refutations of the unfixed code : examples F6, F8 at the end;  non-vacuity examples.
 
-  Nothing is `_partial`.  Limits of the MODEL (not of the proofs), see the header of `ConcData.lean`: the
-  queue section of the sync `insert_with_memory` (several nested store-lock sections inside one queue-mutex
-  section) is one micro-step; DashMap operations are atomic; the clock is read in the micro-step that uses it.
+  Nothing is `_partial`.  Limits of the MODEL (not of the proofs), see the header of `ConcData.lean`: in THIS
+  file the queue section of the sync `insert_with_memory` (several nested store-lock sections inside one
+  queue-mutex section) is one micro-step — `Props/C18f.lean` re-proves (a), (c), (d) for the FINE model
+  `ConcDataFine` in which every one of those store-lock sections is its own micro-step, other threads' store-only
+  sections may fall between them, and the queue mutex is modelled explicitly; DashMap operations are atomic;
+  the clock is read in the micro-step that uses it.
 
   Helper lemmas: `Cachelito/Lemmas/ConcData.lean`.
 -/
